@@ -6,8 +6,9 @@
 set -u
 PROP=$1; PATCH=$2; shift 2
 CHECKS=${@:-$PROP}
-WT=/tmp/seedrepo
-CP=/tmp/w/seedtest
+SLOT=${SEED_SLOT:-}
+WT=/tmp/seedrepo$SLOT
+CP=/tmp/w/seedtest$SLOT
 if [ ! -d $WT ]; then git -C /repo worktree add -q --detach $WT HEAD; fi
 git -C $WT checkout -q --detach $(git -C /repo rev-parse HEAD) 2>/dev/null
 git -C $WT checkout -q -- . 
@@ -15,7 +16,7 @@ mkdir -p /tmp/w
 if [ ! -d $CP ]; then cp -r /verif $CP; fi
 # sync sources (keep the copy's build caches)
 # the COMMITTED state of /verif is what gets tested (work in progress in /verif cannot leak into a result)
-EXP=/tmp/w/seedexport; rm -rf $EXP; mkdir -p $EXP; git -C /verif archive HEAD | tar -x -C $EXP
+EXP=/tmp/w/seedexport$SLOT; rm -rf $EXP; mkdir -p $EXP; git -C /verif archive HEAD | tar -x -C $EXP
 rsync -a --delete --exclude .cache --exclude 'lean/.lake' --exclude 'lean/Hs/Gen' --exclude .git --exclude replay --exclude evidence $EXP/ $CP/
 rm -rf $EXP
 sed -i "s|path = \"/repo\"|path = \"$WT\"|" $CP/harness/Cargo.toml
